@@ -598,6 +598,9 @@ impl<'a> Interp<'a> {
         if let Some(t) = st.get("target").and_then(|t| t.as_str()) {
             op.insert("target".into(), json!(self.subst(t)));
         }
+        if let Some(t) = st.get("chdir_before_commit").and_then(|t| t.as_str()) {
+            op.insert("chdir_before_commit".into(), json!(self.subst(t)));
+        }
         if let Some(m) = st.get("mid") {
             let m2 = self.resolve_env(m);
             op.insert("mid".into(), m2);
@@ -658,7 +661,16 @@ impl<'a> Interp<'a> {
             "remove_opts" => self.judge_remove_opts(st, &r, key.as_deref().unwrap_or("")),
             "clear" => self.judge_clear(st, &r),
             "index_insert" => self.judge_index_insert(st, &r, key.as_deref().unwrap_or("")),
-            "link_to" => self.judge_link_to(st, &r, key.as_deref()),
+            "link_to" => {
+                self.judge_link_to(st, &r, key.as_deref());
+                if let Some(d) = st.get("chdir_before_commit").and_then(|t| t.as_str()) {
+                    if st["entry"] != "fn" {
+                        let p = self.subst(d);
+                        self.chdir_all(&p);
+                        self.fault("cwd_change_open_to_commit");
+                    }
+                }
+            }
             _ => {}
         }
     }
